@@ -11,6 +11,7 @@ import (
 	"os"
 	"path/filepath"
 	"strconv"
+	"strings"
 	"syscall"
 	"time"
 
@@ -25,6 +26,55 @@ var errSentinel = errors.New("injected callback failure")
 
 const caseTimeout = 10 * time.Second
 
+// closerWait bounds how long a failing callback waits for the effects of a cancellation (the context being
+// done, the close-on-cancel goroutine having closed the reader's end) before it returns its error anyway.
+const closerWait = 50 * time.Millisecond
+
+// readerPresent: does this process hold a descriptor opened read-only on the FIFO at path?  (Ingest runs in
+// this process; the harness itself only ever opens FIFOs for writing, or O_RDWR in its time-out path.)
+func readerPresent(path string) (present, known bool) {
+	ents, err := os.ReadDir("/proc/self/fd")
+	if err != nil {
+		return false, false
+	}
+	for _, e := range ents {
+		t, err := os.Readlink("/proc/self/fd/" + e.Name())
+		if err != nil || t != path {
+			continue
+		}
+		info, err := os.ReadFile("/proc/self/fdinfo/" + e.Name())
+		if err != nil {
+			continue
+		}
+		for _, ln := range strings.Split(string(info), "\n") {
+			if f := strings.Fields(ln); len(f) == 2 && f[0] == "flags:" {
+				if v, err := strconv.ParseUint(f[1], 8, 64); err == nil && v&uint64(syscall.O_ACCMODE) == uint64(syscall.O_RDONLY) {
+					return true, true
+				}
+			}
+		}
+	}
+	return false, true
+}
+
+// waitReaderGone polls until no read-only descriptor on the FIFO is left in this process, at most d.
+func waitReaderGone(path string, d time.Duration) bool {
+	deadline := time.Now().Add(d)
+	for {
+		present, known := readerPresent(path)
+		if known && !present {
+			return true
+		}
+		if !known || time.Now().After(deadline) {
+			if !known {
+				time.Sleep(d)
+			}
+			return false
+		}
+		time.Sleep(200 * time.Microsecond)
+	}
+}
+
 // pipeObs is what the real Ingest did on one case.
 type pipeObs struct {
 	Recs     [][]byte `json:"-"`
@@ -34,6 +84,8 @@ type pipeObs struct {
 	WriteErr string   `json:"write_err,omitempty"`
 	Written  int      `json:"bytes_written"`
 	Harness  string   `json:"harness_problem,omitempty"`
+	// cancellation cases: the reader's descriptor was seen to be gone before the callback returned its error
+	CloserSeen bool `json:"closer_seen,omitempty"`
 }
 
 func classify(err error) string {
@@ -56,6 +108,11 @@ func classify(err error) string {
 func runPipe(tmp string, c pipeCase, idx int) pipeObs {
 	obs := pipeObs{FailedAt: -1}
 	path := filepath.Join(tmp, "fifo"+strconv.Itoa(idx))
+	if real, err := filepath.EvalSymlinks(tmp); err == nil { // the form /proc/self/fd shows
+		if abs, err := filepath.Abs(real); err == nil {
+			path = filepath.Join(abs, "fifo"+strconv.Itoa(idx))
+		}
+	}
 	_ = os.Remove(path)
 	if err := syscall.Mkfifo(path, 0o600); err != nil {
 		obs.Harness = "mkfifo: " + err.Error()
@@ -83,18 +140,60 @@ func runPipe(tmp string, c pipeCase, idx int) pipeObs {
 
 	var recs [][]byte
 	calls, failedAt := 0, -1
-	cb := func(_ context.Context, line string) error {
+	cancelled := false // the case itself cancelled Ingest's context
+	askCancel := make(chan struct{})
+	if c.Cancel == "outside" {
+		go func() { // some other part of the program cancels the worker while its callback is running
+			select {
+			case <-askCancel:
+				cancel()
+			case <-ctx.Done():
+			}
+		}()
+	}
+	cb := func(cbCtx context.Context, line string) error {
 		k := calls
 		calls++
 		recs = append(recs, []byte(line))
+		if c.Cancel == "earlier" && k == c.CancelAt {
+			// cancelled during a successful callback: whether Ingest gets to the failing record at all is up to it
+			cancelled = true
+			cancel()
+			if c.WaitCloser {
+				obs.CloserSeen = waitReaderGone(path, closerWait)
+			}
+			return nil
+		}
 		if k == c.FailAt {
 			failedAt = k
+			cancelled = cancelled || c.Cancel != ""
+			switch c.Cancel {
+			case "in-callback":
+				cancel()
+			case "outside":
+				close(askCancel)
+				select {
+				case <-cbCtx.Done():
+				case <-time.After(closerWait):
+				}
+			}
+			if c.Cancel != "" && c.WaitCloser {
+				obs.CloserSeen = waitReaderGone(path, closerWait)
+			}
 			return errSentinel
 		}
 		return nil
 	}
 	ingDone := make(chan error, 1)
-	go func() { ingDone <- ing.Ingest(ctx, path, byte(c.Delim), cb) }()
+	ingReturned := make(chan struct{})
+	go func() {
+		err := ing.Ingest(ctx, path, byte(c.Delim), cb)
+		close(ingReturned)
+		ingDone <- err
+	}()
+	// hold_open: the writer closes its end only after Ingest has returned (only when Ingest is going to return
+	// without seeing the end of the stream, i.e. when the callback fails at a record the stream has)
+	hold := c.HoldOpen && c.FailAt >= 0 && c.FailAt < bytes.Count(stream, []byte{byte(c.Delim)})
 
 	type wres struct {
 		n   int
@@ -122,6 +221,12 @@ func runPipe(tmp string, c pipeCase, idx int) pipeObs {
 			off += s
 			if sleepAt[i] {
 				time.Sleep(time.Duration(c.SleepUs) * time.Microsecond)
+			}
+		}
+		if hold {
+			select {
+			case <-ingReturned:
+			case <-time.After(caseTimeout):
 			}
 		}
 		wDone <- wres{n, f.Close()}
@@ -173,8 +278,9 @@ func runPipe(tmp string, c pipeCase, idx int) pipeObs {
 	obs.Written = w.n
 	if w.err != nil {
 		obs.WriteErr = w.err.Error()
-		// the only legitimate reason for a failed write: the reader went away after the callback failed
-		if !(failedAt >= 0 && errors.Is(w.err, syscall.EPIPE)) {
+		// the only legitimate reason for a failed write: the reader went away after the callback failed or after
+		// the case cancelled the reader's context
+		if !((failedAt >= 0 || cancelled) && errors.Is(w.err, syscall.EPIPE)) {
 			obs.Harness = "writer failed: " + w.err.Error()
 		}
 	}
@@ -222,6 +328,9 @@ func judgePipe(c pipeCase, o pipeObs) []failure {
 		want = c.FailAt + 1
 	}
 	var fs []failure
+	if c.Cancel == "earlier" && c.CancelAt < len(bodies) {
+		return judgeCancelledEarlier(c, o, bodies, tail)
+	}
 	// contents and order of what was delivered, as far as both sides go
 	for i := 0; i < len(o.Recs) && i < want; i++ {
 		if got := strip1(o.Recs[i], d); !bytes.Equal(got, bodies[i]) {
@@ -253,6 +362,50 @@ func judgePipe(c pipeCase, o pipeObs) []failure {
 	}
 	return fs
 }
+
+// judgeCancelledEarlier: the context was cancelled during the successful callback for record CancelAt (< FailAt).
+// What Ingest does about the cancellation is not C12's business (C13): it may stop anywhere from there on, with any
+// error.  What stays C12's: what it delivers is the stream's records, in order, once; it does not go past the
+// failing record nor deliver the tail; it does not return nil; and IF the callback did return its error, that
+// error is what comes back.
+func judgeCancelledEarlier(c pipeCase, o pipeObs, bodies [][]byte, tail []byte) []failure {
+	d := byte(c.Delim)
+	failing := c.FailAt >= 0 && c.FailAt < len(bodies)
+	limit := len(bodies)
+	if failing {
+		limit = c.FailAt + 1
+	}
+	var fs []failure
+	for i := 0; i < len(o.Recs) && i < limit; i++ {
+		if got := strip1(o.Recs[i], d); !bytes.Equal(got, bodies[i]) {
+			fs = append(fs, failure{"framing:record-content", fmt.Sprintf("record %d delivered as %s, the stream has %s there", i, short(got), short(bodies[i]))})
+			break
+		}
+	}
+	switch {
+	case len(o.Recs) > limit && failing:
+		fs = append(fs, failure{"framing:delivery-after-error", fmt.Sprintf("callback failed at record %d but was called %d times", c.FailAt, len(o.Recs))})
+	case len(o.Recs) == limit+1 && bytes.Equal(o.Recs[limit], tail):
+		fs = append(fs, failure{"framing:tail-delivered", fmt.Sprintf("the unterminated tail %s was delivered as a record", short(tail))})
+	case len(o.Recs) > limit:
+		fs = append(fs, failure{"framing:record-count", fmt.Sprintf("%d records delivered, the stream has %d terminated records", len(o.Recs), limit)})
+	case len(o.Recs) <= c.CancelAt:
+		fs = append(fs, failure{"framing:record-count", fmt.Sprintf("%d records delivered although the callback for record %d ran (and cancelled the context)", len(o.Recs), c.CancelAt)})
+	}
+	switch {
+	case o.FailedAt >= 0 && o.Ret != "cb":
+		fs = append(fs, failure{"framing:callback-error-not-returned", fmt.Sprintf("callback returned its error at record %d (the context had been cancelled during the callback for record %d), Ingest returned %s", c.FailAt, c.CancelAt, o.Ret)})
+	case o.FailedAt < 0 && (o.Ret == "cb" || o.Ret == "cb-wrapped"):
+		fs = append(fs, failure{"framing:unexpected-error", "Ingest returned the callback's error although the callback never returned it"})
+	case o.FailedAt < 0 && o.Ret == "nil":
+		fs = append(fs, failure{"framing:eof-not-error", "Ingest returned nil after its context was cancelled in the middle of the stream"})
+	}
+	return fs
+}
+
+// inModel: the Coq model knows nothing of cancellation.  Cases in which the context is cancelled during a
+// SUCCESSFUL callback have more than one admissible outcome and are judged by the oracle alone.
+func inModel(c pipeCase) bool { return c.Cancel != "earlier" }
 
 // ---------- Coq rendering ----------
 
